@@ -186,6 +186,7 @@ func runCase(c Case) *ev.Failure {
 				return ev.Failf("step %d: SendSet(data for template %d, %d records, %d bytes) failed: %v", i, tp.ID, len(s.Recs), len(want), err)
 			}
 		}
+		exph.ReleaseAdopted() // SendSet has returned: the application reuses the slices it handed over
 		sent++
 		total += len(want)
 		if n != len(want) {
